@@ -5,7 +5,7 @@ Import ListNotations.
 
 (* ------------------------------------------------------------------ part 1: conservation *)
 Definition conserv (g : gst) : Prop :=
-  Permutation (map snd (qs g) ++ map snd (heldl g) ++ map fst (executed g)) (submitted g) /\
+  Permutation (map snd (qs g) ++ map snd (sq g) ++ map snd (heldl g) ++ map fst (executed g)) (submitted g) /\
   NoDup (submitted g) /\
   (forall tk, In tk (submitted g) -> snd tk < nxt g (fst tk)).
 
@@ -21,9 +21,12 @@ Qed.
 Lemma extract_perm_snd : forall w l tk r, extract w l = Some (tk, r) -> Permutation (map snd l) (tk :: map snd r).
 Proof. intros w l tk r H. apply extract_perm in H. apply (Permutation_map snd) in H. exact H. Qed.
 
-Lemma conserv_same : forall g g', qs g' = qs g -> heldl g' = heldl g -> executed g' = executed g ->
+Lemma conserv_same : forall g g', qs g' = qs g -> sq g' = sq g -> heldl g' = heldl g -> executed g' = executed g ->
   submitted g' = submitted g -> nxt g' = nxt g -> conserv g -> conserv g'.
-Proof. intros g g' H1 H2 H3 H4 H5 (P & N & B). unfold conserv. rewrite H1, H2, H3, H4, H5. auto. Qed.
+Proof. intros g g' H1 H0 H2 H3 H4 H5 (P & N & B). unfold conserv. rewrite H1, H0, H2, H3, H4, H5. auto. Qed.
+
+Lemma perm_mid : forall (A : Type) (a : A) l1 l2, Permutation (l1 ++ a :: l2) (a :: l1 ++ l2).
+Proof. intros. apply Permutation_sym, Permutation_middle. Qed.
 
 Lemma conserv_take : forall g w v g', take g w v = Some g' -> conserv g -> conserv g'.
 Proof.
@@ -32,7 +35,23 @@ Proof.
   unfold conserv; cbn. split; [|split; assumption].
   apply extract_perm_snd in E. eapply Permutation_trans; [|exact P].
   apply Permutation_sym. eapply Permutation_trans; [apply Permutation_app_tail; exact E|].
-  cbn. apply Permutation_middle.
+  cbn. eapply Permutation_trans; [apply Permutation_middle|]. apply Permutation_app_head. apply Permutation_middle.
+Qed.
+
+Lemma conserv_move1 : forall g d s g', move1 g d s = Some g' -> conserv g -> conserv g'.
+Proof.
+  intros g d s g' H (P & N & B). unfold move1 in H.
+  destruct (extract s (sq g)) as [[tk r]|] eqn:E; [|discriminate]. inversion H; subst; clear H.
+  unfold conserv; cbn. split; [|split; assumption].
+  apply extract_perm_snd in E. eapply Permutation_trans; [|exact P].
+  rewrite map_app. cbn. rewrite <- app_assoc. apply Permutation_app_head. cbn.
+  apply Permutation_sym. apply (Permutation_app_tail (map snd (heldl g) ++ map fst (executed g))) in E. exact E.
+Qed.
+
+Lemma conserv_moven : forall n g d s, conserv g -> conserv (moven n g d s).
+Proof.
+  induction n as [|n IH]; intros g d s H; cbn; [exact H|].
+  destruct (move1 g d s) eqn:E; [|exact H]. apply IH. eapply conserv_move1; eassumption.
 Qed.
 
 Lemma conserv_exec : forall g w, conserv g -> conserv (exec g w).
@@ -40,34 +59,36 @@ Proof.
   intros g w (P & N & B). unfold exec. destruct (extract w (heldl g)) as [[tk r]|] eqn:E; [|repeat split; assumption].
   unfold conserv; cbn. split; [|split; assumption].
   apply extract_perm_snd in E. eapply Permutation_trans; [|exact P].
-  apply Permutation_app_head. apply Permutation_sym.
+  apply Permutation_app_head. apply Permutation_app_head. apply Permutation_sym.
   eapply Permutation_trans; [apply Permutation_app_tail; exact E|]. cbn. apply Permutation_middle.
 Qed.
 
-Lemma conserv_enqueue : forall g t i, conserv g -> conserv (enqueue g t i).
+Lemma conserv_enqueue : forall g t i v, conserv g -> conserv (enqueue g t i v).
 Proof.
-  intros g t i (P & N & B). unfold conserv, enqueue; cbn. split; [|split].
+  intros g t i v (P & N & B). unfold conserv, enqueue; cbn. split; [|split].
   - rewrite map_app. cbn. rewrite <- app_assoc. cbn.
-    apply Permutation_sym, Permutation_cons_app, Permutation_sym. exact P.
+    apply Permutation_sym. eapply Permutation_trans; [apply perm_skip, Permutation_sym, P|].
+    eapply Permutation_trans; [apply Permutation_middle|]. apply Permutation_app_head. apply Permutation_middle.
   - constructor; [|exact N]. intros H. apply B in H. cbn in H. lia.
   - intros tk [<-|H]; cbn.
     + rewrite upd_same. lia.
     + specialize (B _ H). unfold upd. destruct (Nat.eqb (fst tk) t) eqn:E; [apply Nat.eqb_eq in E; rewrite E in B; lia|exact B].
 Qed.
 
-Ltac same := (eapply conserv_same; [reflexivity|reflexivity|reflexivity|reflexivity|reflexivity|eassumption]).
+Ltac same := (eapply conserv_same; [reflexivity|reflexivity|reflexivity|reflexivity|reflexivity|reflexivity|eassumption]).
 
 Ltac brk := repeat match goal with
   | |- context [match ?x with _ => _ end] => destruct x eqn:?
   | |- context [if ?x then _ else _] => destruct x eqn:?
   end.
 Ltac leafc H := cbn [fst]; first [exact H | same | (eapply conserv_take; eassumption) | (apply conserv_exec; exact H)
+  | (apply conserv_moven; exact H)
   | (apply conserv_enqueue; exact H)
-  | (eapply conserv_same; [reflexivity|reflexivity|reflexivity|reflexivity|reflexivity|apply conserv_enqueue; exact H])].
+  | (eapply conserv_same; [reflexivity|reflexivity|reflexivity|reflexivity|reflexivity|reflexivity|apply conserv_enqueue; exact H])].
 
 Lemma worker_step_conserv : forall c o w g pc, conserv g -> conserv (fst (worker_step c o w g pc)).
 Proof.
-  intros c o w g pc H. destruct pc; cbn [worker_step]; cbv zeta; brk; leafc H.
+  intros c o w g pc H. destruct pc; cbn [worker_step]; cbv zeta; unfold reset_fresh; brk; leafc H.
 Qed.
 
 Lemma notify_conserv : forall g w, conserv g -> conserv (notify g w).
@@ -110,12 +131,12 @@ Lemma no_dup_across_suspend : forall c progs sched,
 Proof.
   intros c progs sched. destruct (sr_conserv c progs sched) as (P & N & _).
   apply Permutation_sym in P. apply (Permutation_NoDup P) in N.
-  apply nodup_app_r in N. apply nodup_app_r in N. exact N.
+  apply nodup_app_r in N. apply nodup_app_r in N. apply nodup_app_r in N. exact N.
 Qed.
 
 Lemma no_task_lost : forall c progs sched tk,
   let g := fst (sr_run c progs sched) in
-  (In tk (submitted g) -> In tk (map fst (executed g)) \/ In tk (map snd (heldl g)) \/ In tk (map snd (qs g))) /\
+  (In tk (submitted g) -> In tk (map fst (executed g)) \/ In tk (map snd (heldl g)) \/ In tk (map snd (qs g)) \/ In tk (map snd (sq g))) /\
   (In tk (map fst (executed g)) -> In tk (submitted g)).
 Proof.
   intros c progs sched tk g. destruct (sr_conserv c progs sched) as (P & _ & _). fold g in P. split; intros H.
@@ -125,26 +146,26 @@ Qed.
 
 Lemma all_done_when_drained : forall c progs sched,
   let g := fst (sr_run c progs sched) in
-  qs g = [] -> heldl g = [] -> Permutation (map fst (executed g)) (submitted g) /\ NoDup (map fst (executed g)).
+  qs g = [] -> sq g = [] -> heldl g = [] -> Permutation (map fst (executed g)) (submitted g) /\ NoDup (map fst (executed g)).
 Proof.
-  intros c progs sched g Hq Hh. split; [|apply no_dup_across_suspend].
-  destruct (sr_conserv c progs sched) as (P & _ & _). fold g in P. rewrite Hq, Hh in P. exact P.
+  intros c progs sched g Hq Hs Hh. split; [|apply no_dup_across_suspend].
+  destruct (sr_conserv c progs sched) as (P & _ & _). fold g in P. rewrite Hq, Hs, Hh in P. exact P.
 Qed.
 
 (* ------------------------------------------------------------------ part 3: refusals *)
 Definition callkind_of (a : api) : option callkind :=
   match a with
   | ASuspendPU _ _ => Some KSuspendPU | AResumePU _ => Some KResumePU
-  | ASuspendPool _ => Some KSuspendPool | AResumePool => Some KResumePool | ASubmit _ => None
+  | ASuspendPool _ => Some KSuspendPool | AResumePool => Some KResumePool | ASubmit _ | ASubmitLow _ => None
   end.
 
 Definition same_core (g g' : gst) : Prop :=
-  st g' = st g /\ pul g' = pul g /\ qs g' = qs g /\ heldl g' = heldl g /\ waiting g' = waiting g /\
+  st g' = st g /\ pul g' = pul g /\ qs g' = qs g /\ sq g' = sq g /\ heldl g' = heldl g /\ waiting g' = waiting g /\
   live g' = live g /\ executed g' = executed g /\ submitted g' = submitted g.
 
 Lemma refused_expand : forall c a k, refused c a = true -> callkind_of a = Some k -> expand c a = [PRefuse; PRet k].
 Proof.
-  intros [n e s] a k Hr Hk. destruct a as [w self|w|self| |h]; cbn in Hr, Hk; try discriminate; inversion Hk; subst; clear Hk.
+  intros [n e s] a k Hr Hk. destruct a as [w self|w|self| |h|h]; cbn in Hr, Hk; try discriminate; inversion Hk; subst; clear Hk.
   - unfold expand, spu_direct. cbn [elastic stealing]. cbv zeta.
     change (nth 0 g_spu_refusal_returns false) with true. change (nth 1 g_spu_refusal_returns false) with true.
     destruct e; cbn in Hr |- *; [|reflexivity]. rewrite Hr. reflexivity.
@@ -154,14 +175,14 @@ Qed.
 (* a refused call consists of two steps of the caller; whatever the other threads do in between (g1, g2
    arbitrary), the first changes nothing and the second only records (error = true) *)
 Lemma unsupported_refused : forall c a k rest, refused c a = true -> callkind_of a = Some k ->
-  forall t o1 o2 g1 g2 e,
-    let cl0 := {| todo := expand c a ++ rest; ph := Ph0; err := e |} in
+  forall t o1 o2 g1 g2 e v,
+    let cl0 := {| todo := expand c a ++ rest; ph := Ph0; err := e; vl := v |} in
     let s1 := client_step c o1 t g1 cl0 in
     let s2 := client_step c o2 t g2 (snd s1) in
     fst s1 = g1 /\ same_core g2 (fst s2) /\ calls (fst s2) = (t, k, true) :: calls g2 /\
-    snd s2 = {| todo := rest; ph := Ph0; err := false |}.
+    snd s2 = {| todo := rest; ph := Ph0; err := false; vl := false |}.
 Proof.
-  intros c a k rest Hr Hk t o1 o2 g1 g2 e. rewrite (refused_expand c a k Hr Hk). cbn.
+  intros c a k rest Hr Hk t o1 o2 g1 g2 e v. rewrite (refused_expand c a k Hr Hk). cbn.
   unfold same_core. cbn. repeat split; reflexivity.
 Qed.
 
@@ -171,7 +192,7 @@ Proof. intros w [H|[H|[]]]; discriminate. Qed.
 
 Lemma accepted_no_refuse : forall c a, refused c a = false -> ~ In PRefuse (expand c a).
 Proof.
-  intros [n e s] a Hr. destruct a as [w self|w|self| |h]; cbn in Hr.
+  intros [n e s] a Hr. destruct a as [w self|w|self| |h|h]; cbn in Hr.
   - apply orb_false_iff in Hr. destruct Hr as [He Hs]. apply negb_false_iff in He. subst.
     unfold expand, spu_direct. cbn [elastic stealing negb]. cbv zeta. rewrite Hs.
     intros H. apply in_app_iff in H. destruct H as [H|[H|[]]]; [|discriminate]. exact (spu_internal_no_refuse w H).
@@ -185,111 +206,182 @@ Proof.
     + apply in_map_iff in H. destruct H as (x & Hx & _). discriminate.
     + apply in_flat_map in H. destruct H as (x & _ & [Hx|[Hx|[]]]); discriminate.
   - intros [H|[]]; discriminate.
+  - intros [H|[]]; discriminate.
 Qed.
 
 (* ------------------------------------------------------------------ part 2: the sleep decision *)
-Definition SC (w : nat) (g : gst) : Prop := incl (qof w (qs g)) (fresh g w).
-
-Lemma qof_app : forall w l i tk, qof w (l ++ [(i, tk)]) = if Nat.eqb i w then qof w l ++ [tk] else qof w l.
+Lemma in_qof : forall w l x, In x (qof w l) <-> In (w, x) l.
 Proof.
-  intros w l i tk. unfold qof. rewrite filter_app, map_app. cbn. destruct (Nat.eqb i w); cbn; [reflexivity|apply app_nil_r].
+  intros w l x. unfold qof. rewrite in_map_iff. split.
+  - intros ([i y] & E & H). cbn in E. subst y. apply filter_In in H. destruct H as [H1 H2]. cbn in H2. apply Nat.eqb_eq in H2. subst. exact H1.
+  - intros H. exists (w, x). split; [reflexivity|]. apply filter_In. split; [exact H|]. cbn. apply Nat.eqb_refl.
 Qed.
 
-Lemma extract_qof_incl : forall v w l tk r, extract v l = Some (tk, r) -> incl (qof w r) (qof w l).
+Lemma extract_incl : forall v (l : list (nat * task)) tk r, extract v l = Some (tk, r) -> incl r l.
+Proof. intros v l tk r H. apply extract_perm in H. intros x Hx. apply (Permutation_in _ (Permutation_sym H)). right. exact Hx. Qed.
+
+Lemma extract_in : forall v (l : list (nat * task)) tk r, extract v l = Some (tk, r) -> In (v, tk) l.
+Proof. intros v l tk r H. apply extract_perm in H. apply (Permutation_in _ (Permutation_sym H)). left. reflexivity. Qed.
+
+(* the tasks get_queue_length(w) counts / the tasks enqueued on those queues since w last saw them all empty *)
+Definition counted (c : cfg) (w : nat) (g : gst) (x : task) : Prop :=
+  In (w, x) (qs g) \/ In (w, x) (sq g) \/ (lastw c w = true /\ (In (lowq c, x) (qs g) \/ In (lowq c, x) (sq g))).
+Definition isfresh (c : cfg) (w : nat) (g : gst) (x : task) : Prop :=
+  In x (fresh g w) \/ (lastw c w = true /\ In x (fresh g (lowq c))).
+
+Lemma in_qlen : forall c w g x, In x (qlen_tasks c w g) <-> counted c w g x.
 Proof.
-  induction l as [|e l IH]; intros tk r H; cbn in H; [discriminate|].
-  destruct (Nat.eqb (fst e) v) eqn:E.
-  - inversion H; subst. unfold qof; cbn. destruct (Nat.eqb (fst e) w); cbn; [apply incl_tl|]; apply incl_refl.
-  - destruct (extract v l) as [[tk' r']|] eqn:E2; [|discriminate]. inversion H; subst.
-    specialize (IH _ _ eq_refl). unfold qof in *; cbn. destruct (Nat.eqb (fst e) w); cbn; [|exact IH].
-    intros x [<-|Hx]; [left; reflexivity|right; apply IH, Hx].
+  intros c w g x. unfold qlen_tasks, counted. rewrite !in_app_iff, !in_qof. destruct (lastw c w).
+  - rewrite in_app_iff, !in_qof. tauto.
+  - cbn. intuition discriminate.
 Qed.
 
-Lemma sc_same : forall w g g', qs g' = qs g -> fresh g' = fresh g -> SC w g -> SC w g'.
-Proof. intros w g g' H1 H2 H. unfold SC. rewrite H1, H2. exact H. Qed.
+Definition SC (c : cfg) (w : nat) (g : gst) : Prop := forall x, counted c w g x -> isfresh c w g x.
 
-Lemma sc_take : forall w g x v g', take g x v = Some g' -> SC w g -> SC w g'.
+Lemma sc_shrink : forall c w g g', incl (qs g') (qs g) -> incl (sq g') (sq g) -> fresh g' = fresh g -> SC c w g -> SC c w g'.
 Proof.
-  intros w g x v g' H S. unfold take in H. destruct (extract v (qs g)) as [[tk r]|] eqn:E; [|discriminate].
-  inversion H; subst; clear H. unfold SC; cbn. eapply incl_tran; [eapply extract_qof_incl; exact E|exact S].
+  intros c w g g' H1 H2 H3 S x Hx. unfold isfresh. rewrite H3. apply S. unfold counted in *.
+  unfold incl in *. destruct Hx as [H|[H|[L [H|H]]]]; auto 6.
 Qed.
 
-Lemma sc_exec : forall w g x, SC w g -> SC w (exec g x).
-Proof. intros w g x S. unfold exec. destruct (extract x (heldl g)) as [[tk r]|]; [|exact S]. exact S. Qed.
+Lemma sc_same : forall c w g g', qs g' = qs g -> sq g' = sq g -> fresh g' = fresh g -> SC c w g -> SC c w g'.
+Proof. intros c w g g' H1 H2 H3. apply sc_shrink; [rewrite H1|rewrite H2|exact H3]; apply incl_refl. Qed.
 
-Lemma sc_enqueue : forall w g t i, SC w g -> SC w (enqueue g t i).
+Lemma sc_take : forall c w g x v g', take g x v = Some g' -> SC c w g -> SC c w g'.
 Proof.
-  intros w g t i S. unfold SC, enqueue; cbn [qs fresh]. rewrite qof_app. unfold upd.
-  destruct (Nat.eqb i w) eqn:E.
-  - apply Nat.eqb_eq in E. subst. rewrite Nat.eqb_refl. apply incl_app; [apply incl_appl, S|apply incl_appr, incl_refl].
-  - rewrite Nat.eqb_sym, E. exact S.
+  intros c w g x v g' H. unfold take in H. destruct (extract v (qs g)) as [[tk r]|] eqn:E; [|discriminate].
+  inversion H; subst; clear H. apply sc_shrink; cbn; [eapply extract_incl; exact E|apply incl_refl|reflexivity].
 Qed.
 
-Lemma sc_reset_other : forall w g t, w <> t -> SC w g -> SC w (set_fresh g (upd (fresh g) t [])).
-Proof. intros w g t N S. unfold SC; cbn. rewrite upd_other by exact N. exact S. Qed.
+Lemma sc_exec : forall c w g x, SC c w g -> SC c w (exec g x).
+Proof. intros c w g x S. unfold exec. destruct (extract x (heldl g)) as [[tk r]|]; [|exact S]. exact S. Qed.
 
-Ltac sames := (eapply sc_same; [reflexivity|reflexivity|eassumption]).
+(* conversions by another worker put tasks into ITS pending queue (or, the last worker, into the low-priority one) *)
+Lemma sc_move1 : forall c w g d s g', move1 g d s = Some g' -> d <> w -> (lastw c w = true -> d <> lowq c) -> SC c w g -> SC c w g'.
+Proof.
+  intros c w g d s g' H Nd Nl S x Hx. unfold move1 in H. destruct (extract s (sq g)) as [[tk r]|] eqn:E; [|discriminate].
+  inversion H; subst; clear H. unfold isfresh; cbn [fresh]. apply S. pose proof (extract_incl _ _ _ _ E) as I.
+  unfold counted in *; cbn [qs sq] in Hx. rewrite !in_app_iff in Hx. cbn in Hx.
+  unfold incl in I.
+  destruct Hx as [[H|[H|[]]]|[H|[L [[H|[H|[]]]|H]]]]; try (solve [auto 7]);
+    inversion H; subst; first [congruence | exfalso; exact (Nl L eq_refl)].
+Qed.
+
+Lemma sc_moven : forall c w n g d s, d <> w -> (lastw c w = true -> d <> lowq c) -> SC c w g -> SC c w (moven n g d s).
+Proof.
+  induction n as [|n IH]; intros g d s Nd Nl S; cbn; [exact S|].
+  destruct (move1 g d s) eqn:E; [|exact S]. apply IH; [exact Nd|exact Nl|]. eapply sc_move1; eassumption.
+Qed.
+
+Lemma sc_enqueue : forall c w g t i v, SC c w g -> SC c w (enqueue g t i v).
+Proof.
+  intros c w g t i v S x Hx. unfold counted, isfresh, enqueue in *; cbn [qs sq fresh] in *. rewrite !in_app_iff in Hx. cbn in Hx.
+  assert (M : forall j, In x (fresh g j) -> In x (upd (fresh g) i (fresh g i ++ [(t, nxt g t)]) j)).
+  { intros j Hj. unfold upd. destruct (Nat.eqb j i) eqn:E; [apply Nat.eqb_eq in E; subst; apply in_app_iff; auto|exact Hj]. }
+  assert (Nw : In (t, nxt g t) (upd (fresh g) i (fresh g i ++ [(t, nxt g t)]) i)).
+  { rewrite upd_same. apply in_app_iff. right. left. reflexivity. }
+  assert (Old : counted c w g x -> In x (upd (fresh g) i (fresh g i ++ [(t, nxt g t)]) w) \/
+          (lastw c w = true /\ In x (upd (fresh g) i (fresh g i ++ [(t, nxt g t)]) (lowq c)))).
+  { intros Hc. destruct (S x Hc) as [H|[L H]]; [left|right; split; [exact L|]]; apply M, H. }
+  destruct Hx as [H|[[H|[H|[]]]|[L [H|[H|[H|[]]]]]]].
+  - apply Old. left. exact H.
+  - apply Old. right. left. exact H.
+  - inversion H; subst. left. exact Nw.
+  - apply Old. right. right. auto.
+  - apply Old. right. right. auto.
+  - inversion H; subst. right. split; [exact L|exact Nw].
+Qed.
+
+Lemma lastw_inj : forall c w t, lastw c w = true -> lastw c t = true -> w = t.
+Proof. intros c w t H1 H2. unfold lastw in *. apply Nat.eqb_eq in H1, H2. lia. Qed.
+
+Lemma sc_reset_other : forall c w g t, w <> t -> w < nw c -> t < nw c -> SC c w g -> SC c w (reset_fresh c t g).
+Proof.
+  intros c w g t N Hw Ht S x Hx. specialize (S x Hx). unfold isfresh, reset_fresh in *. cbn [fresh set_fresh].
+  assert (Nl : w <> lowq c) by (unfold lowq; lia).
+  destruct (lastw c t) eqn:Lt.
+  - destruct S as [H|[L H]].
+    + left. rewrite upd_other by exact Nl. rewrite upd_other by exact N. exact H.
+    + exfalso. apply N. eapply lastw_inj; eassumption.
+  - destruct S as [H|[L H]].
+    + left. rewrite upd_other by exact N. exact H.
+    + right. split; [exact L|]. rewrite upd_other; [exact H|]. unfold lowq. lia.
+Qed.
+
+Ltac sames := (eapply sc_same; [reflexivity|reflexivity|reflexivity|eassumption]).
 Ltac leafs H := cbn [fst]; first [exact H | sames | (eapply sc_take; eassumption) | (apply sc_exec; exact H)
   | (apply sc_enqueue; exact H) | (apply sc_reset_other; assumption)
-  | (eapply sc_same; [reflexivity|reflexivity|apply sc_enqueue; exact H])].
+  | (eapply sc_same; [reflexivity|reflexivity|reflexivity|apply sc_enqueue; exact H])].
 
-Lemma worker_step_sc_other : forall c o t g pc w, w <> t -> SC w g -> SC w (fst (worker_step c o t g pc)).
+Lemma worker_step_sc_other : forall c o t g pc w, w <> t -> w < nw c -> t < nw c -> SC c w g -> SC c w (fst (worker_step c o t g pc)).
 Proof.
-  intros c o t g pc w N H. destruct pc; cbn [worker_step]; cbv zeta; brk; leafs H.
+  intros c o t g pc w N Hw Ht H.
+  assert (Nt : t <> w) by congruence.
+  assert (L1 : lastw c w = true -> t <> lowq c) by (intros _; unfold lowq; lia).
+  destruct pc; cbn [worker_step]; cbv zeta; brk; try leafs H; cbn [fst].
+  - apply sc_moven; assumption.
+  - apply sc_moven; assumption.
+  - apply sc_moven; [unfold lowq; lia| |exact H]. intros Lw. exfalso. apply N.
+    match goal with E : (lastw c t && _ && _) = true |- _ => apply andb_true_iff in E; destruct E as [E _]; apply andb_true_iff in E; destruct E as [E _] end.
+    eapply lastw_inj; eassumption.
 Qed.
 
-Lemma notify_sc : forall g x w, SC w g -> SC w (notify g x).
-Proof. intros g x w H. unfold notify. destruct g_resume_notifies; [sames|exact H]. Qed.
+Lemma notify_sc : forall c g x w, SC c w g -> SC c w (notify g x).
+Proof. intros c g x w H. unfold notify. destruct g_resume_notifies; [sames|exact H]. Qed.
 
-Lemma client_step_sc : forall c o t g cl w, SC w g -> SC w (fst (client_step c o t g cl)).
+Lemma client_step_sc : forall c o t g cl w, SC c w g -> SC c w (fst (client_step c o t g cl)).
 Proof.
   intros c o t g cl w H. unfold client_step. destruct (todo cl) as [|p rest]; [exact H|].
   destruct p; cbv zeta; brk; cbn [fst]; try (apply notify_sc); try leafs H.
-  all: match goal with E : match ?h with Some _ => _ | None => _ end = (_, ?g0) |- SC _ ?g0 =>
+  all: match goal with E : match ?h with Some _ => _ | None => _ end = (_, ?g0) |- SC _ _ ?g0 =>
          destruct h; inversion E; subst; leafs H end.
 Qed.
 
 Lemma worker_step_sc_self : forall c o t g pc,
-  (sleepy pc = true -> SC t g) -> sleepy (snd (worker_step c o t g pc)) = true -> SC t (fst (worker_step c o t g pc)).
+  (sleepy pc = true -> SC c t g) -> sleepy (snd (worker_step c o t g pc)) = true -> SC c t (fst (worker_step c o t g pc)).
 Proof.
   intros c o t g pc H. destruct pc; cbn [worker_step sleepy] in *; cbv zeta; brk; cbn [fst snd sleepy]; intros S; try discriminate;
     try (specialize (H eq_refl)); try leafs H.
-  unfold SC; cbn [qs fresh set_fresh]. match goal with E : qof t (qs g) = [] |- _ => rewrite E end. apply incl_nil_l.
+  intros x Hx. exfalso. apply in_qlen in Hx. unfold qlen_tasks, reset_fresh in *. cbn [qs sq set_fresh] in Hx.
+  match goal with E : _ = [] |- _ => unfold qlen_tasks in E; rewrite E in Hx end. exact Hx.
 Qed.
 
-Definition SCinv (g : gst) (ls : locals lstate) : Prop :=
-  forall w pc, ls w = LWorker pc -> sleepy pc = true -> SC w g.
+Definition SCinv (c : cfg) (g : gst) (ls : locals lstate) : Prop :=
+  forall w pc, ls w = LWorker pc -> w < nw c /\ (sleepy pc = true -> SC c w g).
 
-Lemma tstep_scinv : forall c o t g (ls : locals lstate), SCinv g ls ->
-  SCinv (fst (sr_tstep c o t g (ls t))) (upd ls t (snd (sr_tstep c o t g (ls t)))).
+Lemma tstep_scinv : forall c o t g (ls : locals lstate), SCinv c g ls ->
+  SCinv c (fst (sr_tstep c o t g (ls t))) (upd ls t (snd (sr_tstep c o t g (ls t)))).
 Proof.
-  intros c o t g ls I w pc Hw Hs. unfold upd in Hw. destruct (Nat.eqb w t) eqn:E.
+  intros c o t g ls I w pc Hw. unfold upd in Hw. destruct (Nat.eqb w t) eqn:E.
   - apply Nat.eqb_eq in E. subst w. destruct (ls t) as [pc0|cl|] eqn:L; cbn [sr_tstep] in *.
-    + destruct (Nat.ltb t (nw c)).
-      * pose proof (worker_step_sc_self c o t g pc0 (I t pc0 L)) as W.
+    + destruct (I t pc0 L) as [Lt I0]. split; [exact Lt|]. intros Hs. destruct (Nat.ltb t (nw c)).
+      * pose proof (worker_step_sc_self c o t g pc0 I0) as W.
         destruct (worker_step c o t g pc0) as [g' pc']. cbn [fst snd] in *. inversion Hw; subst. apply W, Hs.
-      * cbn [fst snd] in *. inversion Hw; subst. eapply I; eassumption.
+      * cbn [fst snd] in *. inversion Hw; subst. apply I0, Hs.
     + destruct (Nat.ltb t (nw c)); [discriminate|]. destruct (client_step c o t g cl). discriminate.
     + discriminate.
-  - apply Nat.eqb_neq in E. specialize (I w pc Hw Hs). destruct (ls t) as [pc0|cl|]; cbn [sr_tstep].
-    + destruct (Nat.ltb t (nw c)); [|exact I].
-      pose proof (worker_step_sc_other c o t g pc0 w E I) as W. destruct (worker_step c o t g pc0). exact W.
-    + destruct (Nat.ltb t (nw c)); [exact I|].
-      pose proof (client_step_sc c o t g cl w I) as W. destruct (client_step c o t g cl). exact W.
-    + exact I.
+  - apply Nat.eqb_neq in E. destruct (I w pc Hw) as [Lw I0]. split; [exact Lw|]. intros Hs. specialize (I0 Hs).
+    destruct (ls t) as [pc0|cl|] eqn:L; cbn [sr_tstep].
+    + destruct (I t pc0 L) as [Lt _]. destruct (Nat.ltb t (nw c)); [|exact I0].
+      pose proof (worker_step_sc_other c o t g pc0 w E Lw Lt I0) as W. destruct (worker_step c o t g pc0). exact W.
+    + destruct (Nat.ltb t (nw c)); [exact I0|].
+      pose proof (client_step_sc c o t g cl w I0) as W. destruct (client_step c o t g cl). exact W.
+    + exact I0.
 Qed.
 
-(* a worker that has decided to sleep (or sleeps) has in its queue only tasks that were enqueued after it
-   last saw the queue empty with running = false *)
+(* a worker that has decided to sleep (or sleeps) has in the queues get_queue_length counts only tasks that were
+   enqueued after it last saw them all empty with running = false *)
 Lemma sr_sleep_check : forall c progs sched w pc,
   let cf := sr_run c progs sched in
-  snd cf w = LWorker pc -> sleepy pc = true -> incl (qof w (qs (fst cf))) (fresh (fst cf) w).
+  snd cf w = LWorker pc -> sleepy pc = true -> forall x, In x (qlen_tasks c w (fst cf)) -> isfresh c w (fst cf) x.
 Proof.
   intros c progs sched w pc cf. unfold cf, sr_run.
-  pose proof (run_inv gst lstate oracle (sr_tstep c) SCinv (tstep_scinv c) sched (sr_g0, sr_locals c progs)) as R.
-  cbn [fst snd] in R. intros Hw Hs. apply (R (fun w pc _ _ => incl_nil_l _) w pc Hw Hs).
+  pose proof (run_inv gst lstate oracle (sr_tstep c) (SCinv c) (tstep_scinv c) sched (sr_g0, sr_locals c progs)) as R.
+  cbn [fst snd] in R. intros Hw Hs x Hx. apply in_qlen in Hx. revert x Hx.
+  refine (proj2 (R _ w pc Hw) Hs).
+  intros w0 pc0 H0. unfold sr_locals in H0. destruct (Nat.ltb w0 (nw c)) eqn:Lt; [|discriminate]. apply Nat.ltb_lt in Lt.
+  split; [exact Lt|]. intros _ x [[]|[[]|[_ [[]|[]]]]].
 Qed.
-
 (* ------------------------------------------------------------------ part 4: the calls return *)
 Definition api_ok (c : cfg) (a : api) : Prop :=
   match a with ASuspendPU w _ | AResumePU w => w < nw c | _ => True end.
@@ -306,7 +398,7 @@ Definition wait_pc (pc : wpc) : bool := match pc with WEnterWait | WWaiting | WW
 Definition hold_head (td : list prim) (w : nat) : Prop :=
   match td with
   | PLockedCas w' :: _ | PLockedNop w' :: _ => w' = w
-  | PSubmit _ :: _ => True
+  | PSubmit _ _ :: _ => True
   | _ => False
   end.
 
@@ -375,6 +467,19 @@ Qed.
 Lemma exec_fields : forall g w, st (exec g w) = st g /\ waiting (exec g w) = waiting g /\ pul (exec g w) = pul g.
 Proof. intros g w. unfold exec. destruct (extract w (heldl g)) as [[tk r]|]; cbn; auto. Qed.
 
+Lemma move1_fields : forall g d s g', move1 g d s = Some g' ->
+  st g' = st g /\ waiting g' = waiting g /\ pul g' = pul g /\ heldl g' = heldl g.
+Proof.
+  intros g d s g' H. unfold move1 in H. destruct (extract s (sq g)) as [[tk r]|]; [|discriminate]. inversion H; subst; cbn. auto.
+Qed.
+
+Lemma moven_fields : forall n g d s,
+  st (moven n g d s) = st g /\ waiting (moven n g d s) = waiting g /\ pul (moven n g d s) = pul g /\ heldl (moven n g d s) = heldl g.
+Proof.
+  induction n as [|n IH]; intros g d s; cbn; [auto|]. destruct (move1 g d s) eqn:E; [|auto].
+  destruct (move1_fields _ _ _ _ E) as (A & B & C & D). destruct (IH g0 d s) as (A' & B' & C' & D'). repeat split; congruence.
+Qed.
+
 Ltac takes := repeat match goal with
   | H : take _ _ _ = Some _ |- _ => apply take_fields in H; destruct H as (?Hs & ?Hw & ?Hp & ?tk & ?Hh)
   end.
@@ -384,8 +489,9 @@ Lemma worker_eff : forall c o t g pc,
   let g' := fst (worker_step c o t g pc) in
   (forall x, x <> t -> st g' x = st g x /\ waiting g' x = waiting g x) /\ pul g' = pul g.
 Proof.
-  intros c o t g pc. destruct pc; cbn [worker_step]; cbv zeta; brk; takes; cbn [fst];
+  intros c o t g pc. destruct pc; cbn [worker_step]; cbv zeta; unfold reset_fresh; brk; takes; cbn [fst];
     try (destruct (exec_fields g t) as (E1 & E2 & E3); rewrite E1, E2, E3);
+    try match goal with |- context [moven ?n ?g0 ?d ?s] => destruct (moven_fields n g0 d s) as (M1 & M2 & M3 & M4); rewrite M1, M2, M3 end;
     cbn [st waiting pul set_st set_waiting set_fresh]; (split; [intros x Hx; rewrite ?upd_other by exact Hx; try split; congruence|congruence]).
 Qed.
 
@@ -394,19 +500,18 @@ Lemma worker_hs_self : forall c o t g pc,
   let r := worker_step c o t g pc in
   rs_eqb (st (fst r) t) rs_sleeping = wait_pc (snd r) /\ (waiting (fst r) t = true -> snd r = WWaiting).
 Proof.
-  intros c o t g pc [H1 H2]. destruct pc; cbn [worker_step]; cbv zeta; brk; takes; cbn [fst snd wait_pc] in *;
+  intros c o t g pc [H1 H2]. destruct pc; cbn [worker_step]; cbv zeta; unfold reset_fresh; brk; takes; cbn [fst snd wait_pc] in *;
     try (destruct (exec_fields g t) as (E1 & E2 & E3); rewrite E1, E2);
+    try match goal with |- context [moven ?n ?g0 ?d ?s] => destruct (moven_fields n g0 d s) as (M1 & M2 & M3 & M4); rewrite M1, M2 end;
     cbn [st waiting set_st set_waiting set_fresh]; rewrite ?upd_same;
     repeat match goal with H : st _ = st _ |- _ => rewrite H end;
     repeat match goal with H : waiting _ = waiting _ |- _ => rewrite H end;
-    try (split; [assumption|intros W; specialize (H2 W); discriminate]);
-    try (split; [reflexivity|intros W; try reflexivity; discriminate]).
-  - split; [reflexivity|intros W; specialize (H2 W); discriminate].
-  - split; [assumption|reflexivity].
-  - split; [assumption|discriminate].
-  - split; [assumption|reflexivity].
-  - split; [|intros W; specialize (H2 W); discriminate].
-    apply rs_eqb_eq in H1. rewrite H1. reflexivity.
+    first [ (split; [assumption|intros W; specialize (H2 W); discriminate])
+          | (split; [reflexivity|intros W; specialize (H2 W); discriminate])
+          | (split; [assumption|reflexivity])
+          | (split; [assumption|discriminate])
+          | (split; [reflexivity|intros W; try reflexivity; discriminate])
+          | (split; [|intros W; specialize (H2 W); discriminate]; apply rs_eqb_eq in H1; rewrite H1; reflexivity) ].
 Qed.
 
 Lemma worker_held : forall c o t g pc,
@@ -430,25 +535,16 @@ Proof.
     - intros w tk [Heq|Hin].
       + inversion Heq; subst. left; split; reflexivity.
       + destruct (Nat.eq_dec w t) as [->|Nw]; [exfalso; apply N; eapply Hpc; eassumption|right; split; assumption]. }
-  destruct pc; cbn [worker_step]; cbv zeta.
-  - apply Hsame; [reflexivity|discriminate].
-  - destruct (take g t t) eqn:T1; [cbn [fst snd]; eapply Htake; [exact T1|discriminate]|].
-    destruct (r && stealing c); [|apply Hsame; [reflexivity|discriminate]].
-    destruct (Nat.eqb _ t); [apply Hsame; [reflexivity|discriminate]|].
-    destruct (take g t (snd o mod nw c)) eqn:T2; [cbn [fst snd]; eapply Htake; [exact T2|discriminate]|apply Hsame; [reflexivity|discriminate]].
-  - cbn [fst snd]. unfold exec. destruct (extract t (heldl g)) as [[tk r]|] eqn:E; cbn [heldl].
-    + pose proof (extract_perm _ _ _ _ E) as P. pose proof (Permutation_map fst P) as P2. cbn in P2.
-      pose proof (Permutation_NoDup P2 Hnd) as N2. inversion N2 as [|? ? Hnot N3]; subst. split; [exact N3|].
-      intros w tk' Hin. right. split.
-      * intros ->. apply Hnot. apply in_map_iff. exists (t, tk'). split; [reflexivity|exact Hin].
-      * apply (Permutation_in _ (Permutation_sym P)). right. exact Hin.
-    + split; [exact Hnd|]. intros w tk' Hin. right. split; [|exact Hin]. intros ->. exact (extract_none _ _ E _ Hin).
-  - destruct (qof t (qs g)); [destruct r|]; cbn [fst snd]; apply Hsame; try reflexivity; discriminate.
-  - destruct (rs_eqb _ _); [destruct ce|]; apply Hsame; try reflexivity; discriminate.
-  - apply Hsame; [reflexivity|discriminate].
-  - apply Hsame; [reflexivity|discriminate].
-  - destruct (negb (waiting g t) || fst o); apply Hsame; try reflexivity; discriminate.
-  - apply Hsame; [reflexivity|discriminate].
+  destruct pc; cbn [worker_step]; cbv zeta; unfold reset_fresh.
+  all: try (solve [brk; cbn [fst snd]; first [ (eapply Htake; [eassumption|discriminate])
+                 | (apply Hsame; [first [reflexivity | apply moven_fields] | discriminate]) ]]).
+  cbn [fst snd]. unfold exec. destruct (extract t (heldl g)) as [[tk r]|] eqn:E; cbn [heldl].
+  + pose proof (extract_perm _ _ _ _ E) as P. pose proof (Permutation_map fst P) as P2. cbn in P2.
+    pose proof (Permutation_NoDup P2 Hnd) as N2. inversion N2 as [|? ? Hnot N3]; subst. split; [exact N3|].
+    intros w tk' Hin. right. split.
+    * intros ->. apply Hnot. apply in_map_iff. exists (t, tk'). split; [reflexivity|exact Hin].
+    * apply (Permutation_in _ (Permutation_sym P)). right. exact Hin.
+  + split; [exact Hnd|]. intros w tk' Hin. right. split; [|exact Hin]. intros ->. exact (extract_none _ _ E _ Hin).
 Qed.
 
 Lemma client_todo : forall c o t g cl,
@@ -540,7 +636,7 @@ Proof.
     + cbn [fst snd]. eapply lk_release with (cl := cl) (w0 := w0); [reflexivity|exact P|intros x; cbn; discriminate|exact H2].
     + destruct (pul g _) eqn:L; [|destruct (negb (fst o) && rs_le _ m0)]; cbn [fst snd].
       * eapply lk_nochange with (cl := cl); [reflexivity|intros x; cbn; discriminate|intros x; rewrite P; discriminate|exact H2].
-      * eapply lk_acquire with (cl := cl); [reflexivity|reflexivity|cbn [todo cl_ph]; rewrite E; exact I|intros x; rewrite P; discriminate|exact H2].
+      * eapply lk_acquire with (cl := cl); [reflexivity|reflexivity|cbn [todo cl_ph cl_sel]; rewrite E; exact I|intros x; rewrite P; discriminate|exact H2].
       * eapply lk_nochange with (cl := cl); [reflexivity|intros x; cbn; discriminate|intros x; rewrite P; discriminate|exact H2].
     + destruct (Nat.ltb _ _); [|destruct (if rs_le _ m0 then S cnt0 else cnt0); [destruct (escalate m0)|]]; cbn [fst snd];
         (eapply lk_nochange with (cl := cl); [reflexivity|intros x; cbn; discriminate|intros x; rewrite P; discriminate|exact H2]).
@@ -614,7 +710,7 @@ Proof. intros c w H. unfold spu_internal. repeat constructor; cbn; auto. Qed.
 
 Lemma expand_ok : forall c a, api_ok c a -> Forall (prim_ok c) (expand c a).
 Proof.
-  intros c a H. destruct a as [w self|w|self| |h]; cbn [expand api_ok] in *.
+  intros c a H. destruct a as [w self|w|self| |h|h]; cbn [expand api_ok] in *.
   - apply Forall_app. split; [|repeat constructor].
     unfold spu_direct. cbv zeta. change (nth 0 g_spu_refusal_returns false) with true. change (nth 1 g_spu_refusal_returns false) with true.
     destruct (negb (elastic c)); [repeat constructor|].
@@ -631,6 +727,7 @@ Proof.
     + apply Forall_forall. intros p Hp. apply in_map_iff in Hp. destruct Hp as (x & <- & _). exact I.
     + apply Forall_forall. intros p Hp. apply in_flat_map in Hp. destruct Hp as (x & Hx & Hp). apply in_seq in Hx.
       destruct Hp as [<-|[<-|[]]]; cbn; [exact I|lia].
+  - repeat constructor.
   - repeat constructor.
 Qed.
 
@@ -676,116 +773,40 @@ Proof.
     apply Nat.ltb_ge in Ge. rewrite Ge in S. exact S.
 Qed.
 
-(* no call blocks for ever, except a pool-suspend that waits for the pool to drain while work remains *)
-Lemma suspend_resume_return : forall c progs sched, (forall t, Forall (api_ok c) (progs t)) ->
-  let cf := sr_run c progs sched in
-  stuck c cf ->
-  forall t, client_done (snd cf t) = true \/ (at_wait_idle (snd cf t) = true /\ live (fst cf) > 0).
-Proof.
-  intros c progs sched Hok cf S t. pose proof (sr_inv4 c progs sched Hok) as I. fold cf in I.
-  destruct cf as [g ls]. cbn [fst snd] in *.
-  destruct (ls t) as [pc|cl|] eqn:L; [left; reflexivity| |left; reflexivity].
-  destruct (stuck_client c g ls t cl I S L) as [Ge Dis].
-  pose proof (i_prog c g ls I t cl L) as Pok.
-  unfold client_enabled in Dis. cbn [client_done at_wait_idle].
-  destruct (todo cl) as [|p rest] eqn:E; [left; reflexivity|]. inversion Pok as [|? ? Pp _]; subst.
-  assert (Hlock : forall w, pul g w <> None -> False).
-  { intros w Hn. destruct (pul g w) as [t2|] eqn:P; [|congruence].
-    destruct (i_lock c g ls I w t2 P) as (cl2 & L2 & Ge2 & Ph2).
-    pose proof (i_hold c g ls I t2 cl2 w L2 Ph2) as HH.
-    destruct (stuck_client c g ls t2 cl2 I S L2) as [_ D2]. unfold client_enabled in D2.
-    destruct (todo cl2) as [|p2 r2]; [exact HH|]. destruct p2; cbn in HH; try contradiction; rewrite ?Ph2 in D2; discriminate. }
-  destruct p; try discriminate.
-  - (* PLockedCas *) destruct (ph cl); try discriminate; destruct (pul g w) eqn:P; try discriminate; exfalso; apply (Hlock w); rewrite P; discriminate.
-  - (* PLockedNop *) destruct (ph cl); try discriminate; destruct (pul g w) eqn:P; try discriminate; exfalso; apply (Hlock w); rewrite P; discriminate.
-  - (* PWaitNot *) exfalso. cbn in Pp. destruct Pp as [-> Hw]. apply negb_false_iff in Dis. apply rs_eqb_eq in Dis.
-    destruct (i_roleW c g ls I w Hw) as (pc & Lw). pose proof (stuck_worker c g ls w pc I S Hw Lw) as D.
-    destruct (i_hs c g ls I w pc Lw Hw) as [A _]. rewrite Dis in A.
-    destruct pc; cbn in A, D; try discriminate; rewrite Dis in D; cbn in D; rewrite ?orb_true_r in D; discriminate.
-  - (* PResumeLoop *) exfalso. cbn in Pp. apply orb_false_iff in Dis. destruct Dis as [D1 D2]. apply negb_false_iff in D1.
-    change g_resume_notifies with true in D2. cbn in D2.
-    destruct (i_roleW c g ls I w Pp) as (pc & Lw). pose proof (stuck_worker c g ls w pc I S Pp Lw) as D.
-    destruct (i_hs c g ls I w pc Lw Pp) as [A _]. change g_res_wait with rs_sleeping in D1. rewrite D1 in A.
-    destruct pc; cbn in A, D; try discriminate. rewrite D2 in D. discriminate.
-  - (* PWaitIdle *) right. split; [reflexivity|]. destruct (live g); [discriminate|lia].
-Qed.
-
-(* ---- nothing is left behind ---- *)
-Lemma qof_nil_extract : forall w l, qof w l = [] -> forall tk, ~ In (w, tk) l.
-Proof.
-  induction l as [|e l IH]; intros H tk; [intros []|]. unfold qof in H. cbn in H.
-  destruct (Nat.eqb (fst e) w) eqn:E; [discriminate|]. intros [->|Hin]; [cbn in E; rewrite Nat.eqb_refl in E; discriminate|].
-  exact (IH H tk Hin).
-Qed.
-
-Lemma stuck_no_held : forall c g (ls : locals lstate), INV4 c g ls -> stuck c (g, ls) -> heldl g = [].
-Proof.
-  intros c g ls I S. destruct (heldl g) as [|[w tk] r] eqn:E; [reflexivity|exfalso].
-  destruct (i_held c g ls I w tk) as [Hw L]; [rewrite E; left; reflexivity|].
-  pose proof (stuck_worker c g ls w WExec I S Hw L) as D. discriminate.
-Qed.
-
-Lemma stuck_running_queue_empty : forall c g (ls : locals lstate) w, INV4 c g ls -> stuck c (g, ls) -> w < nw c ->
-  st g w = rs_running -> qof w (qs g) = [].
-Proof.
-  intros c g ls w I S Hw Hr. destruct (i_roleW c g ls I w Hw) as (pc & L).
-  pose proof (stuck_worker c g ls w pc I S Hw L) as D. destruct (i_hs c g ls I w pc L Hw) as [A _]. rewrite Hr in A.
-  destruct (qof w (qs g)) eqn:Q; [reflexivity|exfalso].
-  destruct pc; cbn in A, D; try discriminate; rewrite Q in D; discriminate.
-Qed.
-
-(* stuck, and every processing unit is running again: every worker's queue is empty, nothing is held *)
-Lemma no_task_stranded_queues : forall c progs sched, (forall t, Forall (api_ok c) (progs t)) ->
-  let cf := sr_run c progs sched in
-  stuck c cf -> (forall w, w < nw c -> st (fst cf) w = rs_running) ->
-  (forall w, w < nw c -> qof w (qs (fst cf)) = []) /\ heldl (fst cf) = [].
-Proof.
-  intros c progs sched Hok cf S R. pose proof (sr_inv4 c progs sched Hok) as I. fold cf in I.
-  destruct cf as [g ls]. cbn [fst snd] in *. split; [|eapply stuck_no_held; eassumption].
-  intros w Hw. eapply stuck_running_queue_empty; eauto.
-Qed.
-
-(* with stealing one running worker is enough, also while others sleep *)
-Lemma no_task_stranded_stealing : forall c progs sched w0, (forall t, Forall (api_ok c) (progs t)) ->
-  let cf := sr_run c progs sched in
-  stealing c = true -> stuck c cf -> w0 < nw c -> st (fst cf) w0 = rs_running ->
-  qs (fst cf) = [] /\ heldl (fst cf) = [] /\
-  Permutation (map fst (executed (fst cf))) (submitted (fst cf)).
-Proof.
-  intros c progs sched w0 Hok cf St S Hw Hr. pose proof (sr_inv4 c progs sched Hok) as I.
-  pose proof (all_done_when_drained c progs sched) as AD. fold cf in I, AD.
-  destruct cf as [g ls]. cbn [fst snd] in *.
-  assert (Hq : qs g = []).
-  { destruct (i_roleW c g ls I w0 Hw) as (pc & L).
-    pose proof (stuck_worker c g ls w0 pc I S Hw L) as D. destruct (i_hs c g ls I w0 pc L Hw) as [A _]. rewrite Hr in A.
-    destruct (qs g) eqn:Q; [reflexivity|exfalso].
-    destruct pc; cbn in A, D; try discriminate; unfold any_queue_nonempty in D; rewrite Q, St, Hr in D; cbn in D;
-      rewrite ?orb_true_r in D; discriminate. }
-  assert (Hh : heldl g = []) by (eapply stuck_no_held; eassumption).
-  split; [exact Hq|split; [exact Hh|]]. apply AD; assumption.
-Qed.
-
-(* ---- queue indices are worker numbers (needs at least one worker) ---- *)
+(* ---- queue indices are worker numbers or the low-priority queue ---- *)
 Definition phase_ok (c : cfg) (cl : client) : Prop :=
   match ph cl with
-  | PhHold i => match todo cl with PSubmit _ :: _ => i < nw c | _ => True end
+  | PhHold i => match todo cl with PSubmit _ _ :: _ => i < nw c | _ => True end
   | PhEnq i => i < nw c
   | PhSelA s _ _ _ | PhSelB s _ _ _ => s < nw c
   | Ph0 => True
   end.
 
-Definition qs_ok (c : cfg) (g : gst) : Prop := forall i tk, In (i, tk) (qs g) -> i < nw c.
+Definition qs_ok (c : cfg) (g : gst) : Prop := forall i tk, In (i, tk) (qs g) \/ In (i, tk) (sq g) -> i <= nw c.
 
-Lemma extract_incl : forall v (l : list (nat * task)) tk r, extract v l = Some (tk, r) -> incl r l.
-Proof. intros v l tk r H. apply extract_perm in H. intros x Hx. apply (Permutation_in _ (Permutation_sym H)). right. exact Hx. Qed.
-
-Lemma worker_qs_ok : forall c o t g pc, qs_ok c g -> qs_ok c (fst (worker_step c o t g pc)).
+Lemma move1_qs_ok : forall c g d s g', move1 g d s = Some g' -> d <= nw c -> qs_ok c g -> qs_ok c g'.
 Proof.
-  intros c o t g pc H.
+  intros c g d s g' H Hd Q. unfold move1 in H. destruct (extract s (sq g)) as [[tk r]|] eqn:E; [|discriminate]. inversion H; subst; clear H.
+  intros i x Hin. cbn [qs sq] in Hin. rewrite in_app_iff in Hin. cbn in Hin. destruct Hin as [[Hin|[Hin|[]]]|Hin].
+  - apply (Q i x). auto.
+  - inversion Hin; subst. exact Hd.
+  - apply (Q i x). right. eapply extract_incl; eassumption.
+Qed.
+
+Lemma moven_qs_ok : forall c n g d s, d <= nw c -> qs_ok c g -> qs_ok c (moven n g d s).
+Proof.
+  induction n as [|n IH]; intros g d s Hd Q; cbn; [exact Q|]. destruct (move1 g d s) eqn:E; [|exact Q].
+  apply IH; [exact Hd|]. eapply move1_qs_ok; eassumption.
+Qed.
+
+Lemma worker_qs_ok : forall c o t g pc, t < nw c -> qs_ok c g -> qs_ok c (fst (worker_step c o t g pc)).
+Proof.
+  intros c o t g pc Ht H.
   assert (HT : forall v g', take g t v = Some g' -> qs_ok c g').
   { intros v g' T. unfold take in T. destruct (extract v (qs g)) as [[tk r]|] eqn:E; [|discriminate]. inversion T; subst.
-    intros i tk' Hin. cbn in Hin. apply (H i tk'). eapply extract_incl; eassumption. }
-  destruct pc; cbn [worker_step]; cbv zeta; brk; cbn [fst]; try exact H; try (eapply HT; eassumption).
+    intros i tk' Hin. cbn in Hin. apply (H i tk'). destruct Hin as [Hin|Hin]; [left; eapply extract_incl; eassumption|right; exact Hin]. }
+  destruct pc; cbn [worker_step]; cbv zeta; unfold reset_fresh; brk; cbn [fst]; try exact H; try (eapply HT; eassumption);
+    try (apply moven_qs_ok; [unfold lowq; lia|exact H]).
   unfold exec. destruct (extract t (heldl g)) as [[tk r]|]; exact H.
 Qed.
 
@@ -794,16 +815,19 @@ Lemma client_qi : forall c o t g cl, nw c > 0 -> phase_ok c cl -> qs_ok c g ->
 Proof.
   intros c o t g cl Hn P Q. unfold client_step. destruct (todo cl) as [|p rest] eqn:E; [split; assumption|].
   assert (Hm : forall x, x mod nw c < nw c) by (intros x; apply Nat.mod_upper_bound; lia).
-  assert (Henq : forall i, i < nw c -> qs_ok c (enqueue g t i)).
-  { intros i Hi j tk Hin. unfold enqueue in Hin; cbn in Hin. apply in_app_iff in Hin. destruct Hin as [Hin|[Heq|[]]]; [exact (Q j tk Hin)|].
-    inversion Heq; subst. exact Hi. }
+  assert (Henq : forall i v, i <= nw c -> qs_ok c (enqueue g t i v)).
+  { intros i v Hi j tk Hin. unfold enqueue in Hin; cbn in Hin. rewrite in_app_iff in Hin. cbn in Hin.
+    destruct Hin as [Hin|[Hin|[Heq|[]]]]; [apply (Q j tk); auto|apply (Q j tk); auto|]. inversion Heq; subst. exact Hi. }
+  assert (Henq' : forall i v f, i <= nw c -> qs_ok c (set_pul (enqueue g t i v) f)) by (intros i v f Hi; exact (Henq i v Hi)).
+  assert (Hlow : forall (b : bool) i, i < nw c -> (if b then lowq c else i) <= nw c) by (intros [|] i Hi; unfold lowq; lia).
   unfold phase_ok in P. rewrite E in P.
-  destruct p; cbv zeta; brk; hintsplit; cbn [fst snd]; unfold phase_ok, cl_next, cl_ph, notify; cbn [ph todo]; rewrite ?E;
+  destruct p; cbv zeta; brk; hintsplit; cbn [fst snd]; unfold phase_ok, cl_next, cl_ph, cl_sel, notify; cbn [ph todo]; rewrite ?E;
     try (change g_resume_notifies with true; cbv iota);
     repeat match goal with H : ph cl = _ |- _ => rewrite H in P end;
     repeat match goal with H : ph cl = _ |- context [ph cl] => rewrite H end;
-    (split; [try exact I; try exact P; try apply Hm; auto | try exact Q; try (apply Henq; exact P)]).
+    (split; [try exact I; try exact P; try apply Hm; auto | try exact Q; try (apply Henq; apply Hlow; exact P)]).
   all: try (destruct (elastic c); apply Hm).
+  all: try (first [apply Henq | apply Henq']; unfold lowq; lia).
 Qed.
 
 Definition QI (c : cfg) (g : gst) (ls : locals lstate) : Prop :=
@@ -816,8 +840,8 @@ Proof.
   assert (Hid : QI c g (upd ls t (ls t))).
   { split; [exact Q|]. intros t2 cl2 H. unfold upd in H. destruct (Nat.eqb t2 t) eqn:E; [apply Nat.eqb_eq in E; subst|]; eapply P; eassumption. }
   destruct (ls t) as [pc|cl|] eqn:L; cbn [sr_tstep]; [| |exact Hid].
-  - destruct (Nat.ltb t (nw c)); [|exact Hid].
-    pose proof (worker_qs_ok c o t g pc Q) as W. destruct (worker_step c o t g pc) as [g' pc']. cbn [fst snd] in *.
+  - destruct (Nat.ltb t (nw c)) eqn:Lt; [|exact Hid]. apply Nat.ltb_lt in Lt.
+    pose proof (worker_qs_ok c o t g pc Lt Q) as W. destruct (worker_step c o t g pc) as [g' pc']. cbn [fst snd] in *.
     split; [exact W|]. intros t2 cl2 H. unfold upd in H. destruct (Nat.eqb t2 t); [discriminate|]. eapply P; eassumption.
   - destruct (Nat.ltb t (nw c)); [exact Hid|].
     pose proof (client_qi c o t g cl Hn (P t cl L) Q) as [W1 W2]. destruct (client_step c o t g cl) as [g' cl']. cbn [fst snd] in *.
@@ -828,24 +852,221 @@ Lemma sr_qi : forall c progs sched, nw c > 0 -> qs_ok c (fst (sr_run c progs sch
 Proof.
   intros c progs sched Hn. unfold sr_run.
   apply (run_inv gst lstate oracle (sr_tstep c) (QI c) (tstep_qi c Hn) sched (sr_g0, sr_locals c progs)).
-  cbn [fst snd]. split; [intros i tk []|]. intros t cl H. unfold sr_locals in H. destruct (Nat.ltb t (nw c)); [discriminate|].
+  cbn [fst snd]. split; [intros i tk [[]|[]]|]. intros t cl H. unfold sr_locals in H. destruct (Nat.ltb t (nw c)); [discriminate|].
   inversion H; subst. exact I.
 Qed.
 
-(* stuck, and every processing unit is running again (every suspend was followed by a resume): nothing is left,
-   every submitted task has been executed exactly once *)
+(* ---- the calls return ---- *)
+Lemma nonempty_app : forall (A : Type) (l1 l2 : list A), nonempty (l1 ++ l2) = nonempty l1 || nonempty l2.
+Proof. intros A [|a l1] l2; reflexivity. Qed.
+
+Lemma nonempty_in : forall (A : Type) (l : list A) x, In x l -> nonempty l = true.
+Proof. intros A [|a l] x H; [destruct H|reflexivity]. Qed.
+
+(* the finding: a processing-unit suspend of the LAST worker spins for ever in yield_while(state == pre_sleep): the worker has
+   been told to sleep, its own queues are empty, but the pool-wide low-priority queue, which it no longer serves, is not *)
+Definition lowprio_blocked (c : cfg) (g : gst) (l : lstate) : Prop :=
+  exists w, at_wait_sleep w l = true /\ lastw c w = true /\ st g w = rs_pre_sleep /\ own_work w g = false /\
+            nonempty (qof (lowq c) (qs g) ++ qof (lowq c) (sq g)) = true.
+
+(* no call blocks for ever, except (1) a pool-suspend that waits for the pool to drain while work remains and
+   (2) the low-priority finding *)
+Lemma suspend_resume_return : forall c progs sched, (forall t, Forall (api_ok c) (progs t)) ->
+  let cf := sr_run c progs sched in
+  stuck c cf ->
+  forall t, client_done (snd cf t) = true \/ (at_wait_idle (snd cf t) = true /\ live (fst cf) > 0) \/
+            lowprio_blocked c (fst cf) (snd cf t).
+Proof.
+  intros c progs sched Hok cf S t. pose proof (sr_inv4 c progs sched Hok) as I. fold cf in I.
+  destruct cf as [g ls]. cbn [fst snd] in *.
+  destruct (ls t) as [pc|cl|] eqn:L; [left; reflexivity| |left; reflexivity].
+  destruct (stuck_client c g ls t cl I S L) as [Ge Dis].
+  pose proof (i_prog c g ls I t cl L) as Pok.
+  unfold client_enabled in Dis. unfold lowprio_blocked. cbn [client_done at_wait_idle at_wait_sleep].
+  destruct (todo cl) as [|p rest] eqn:E; [left; reflexivity|]. inversion Pok as [|? ? Pp _]; subst.
+  assert (Hlock : forall w, pul g w <> None -> False).
+  { intros w Hn. destruct (pul g w) as [t2|] eqn:P; [|congruence].
+    destruct (i_lock c g ls I w t2 P) as (cl2 & L2 & Ge2 & Ph2).
+    pose proof (i_hold c g ls I t2 cl2 w L2 Ph2) as HH.
+    destruct (stuck_client c g ls t2 cl2 I S L2) as [_ D2]. unfold client_enabled in D2.
+    destruct (todo cl2) as [|p2 r2]; [exact HH|]. destruct p2; cbn in HH; try contradiction; rewrite ?Ph2 in D2; discriminate. }
+  destruct p; try discriminate.
+  - (* PLockedCas *) destruct (ph cl); try discriminate; destruct (pul g w) eqn:P; try discriminate; exfalso; apply (Hlock w); rewrite P; discriminate.
+  - (* PLockedNop *) destruct (ph cl); try discriminate; destruct (pul g w) eqn:P; try discriminate; exfalso; apply (Hlock w); rewrite P; discriminate.
+  - (* PWaitNot *) right. right. cbn in Pp. destruct Pp as [-> Hw]. apply negb_false_iff in Dis. apply rs_eqb_eq in Dis.
+    exists w. rewrite Nat.eqb_refl. split; [reflexivity|].
+    destruct (i_roleW c g ls I w Hw) as (pc & Lw). pose proof (stuck_worker c g ls w pc I S Hw Lw) as D.
+    destruct (i_hs c g ls I w pc Lw Hw) as [A _]. rewrite Dis in A. change g_sus_wait with rs_pre_sleep in Dis.
+    assert (K : own_work w g || can_sleep c w g = false -> lastw c w = true /\ st g w = rs_pre_sleep /\ own_work w g = false /\
+              nonempty (qof (lowq c) (qs g) ++ qof (lowq c) (sq g)) = true).
+    { intros K. apply orb_false_iff in K. destruct K as [K1 K2]. unfold can_sleep in K2. rewrite Dis in K2. cbn in K2.
+      apply negb_false_iff in K2. unfold qlen_tasks in K2. unfold own_work in K1. apply orb_false_iff in K1. destruct K1 as [K1a K1b].
+      rewrite !nonempty_app, K1a, K1b in K2. cbn [orb] in K2. destruct (lastw c w); [|cbn in K2; discriminate K2].
+      repeat split; try assumption. unfold own_work. rewrite K1a, K1b. reflexivity. }
+    destruct pc as [|r| | | |r| | |r|[|]| | | |]; cbn in A; cbn [worker_enabled stale] in D; try discriminate;
+      try (apply orb_false_iff in D; destruct D as [D D']; apply orb_false_iff in D; destruct D as [D _]; exact (K D)).
+  - (* PResumeLoop *) exfalso. cbn in Pp. apply orb_false_iff in Dis. destruct Dis as [D1 D2]. apply negb_false_iff in D1.
+    change g_resume_notifies with true in D2. cbn in D2.
+    destruct (i_roleW c g ls I w Pp) as (pc & Lw). pose proof (stuck_worker c g ls w pc I S Pp Lw) as D.
+    destruct (i_hs c g ls I w pc Lw Pp) as [A _]. change g_res_wait with rs_sleeping in D1. rewrite D1 in A.
+    destruct pc; cbn in A, D; try discriminate. rewrite D2 in D. discriminate.
+  - (* PWaitIdle *) right. left. split; [reflexivity|]. destruct (live g); [discriminate|lia].
+Qed.
+
+Lemma suspend_resume_return_guarded : forall c progs sched, (forall t, Forall (api_ok c) (progs t)) ->
+  let cf := sr_run c progs sched in
+  stuck c cf -> qof (lowq c) (qs (fst cf)) = [] -> qof (lowq c) (sq (fst cf)) = [] ->
+  forall t, client_done (snd cf t) = true \/ (at_wait_idle (snd cf t) = true /\ live (fst cf) > 0).
+Proof.
+  intros c progs sched Hok cf S E1 E2 t. destruct (suspend_resume_return c progs sched Hok S t) as [H|[H|H]]; auto.
+  exfalso. destruct H as (w & _ & _ & _ & _ & H). fold cf in H. rewrite E1, E2 in H. discriminate H.
+Qed.
+
+(* ---- nothing is left behind ---- *)
+Lemma stuck_no_held : forall c g (ls : locals lstate), INV4 c g ls -> stuck c (g, ls) -> heldl g = [].
+Proof.
+  intros c g ls I S. destruct (heldl g) as [|[w tk] r] eqn:E; [reflexivity|exfalso].
+  destruct (i_held c g ls I w tk) as [Hw L]; [rewrite E; left; reflexivity|].
+  pose proof (stuck_worker c g ls w WExec I S Hw L) as D. discriminate.
+Qed.
+
+(* a running worker that is not enabled: nothing in its own queues, nothing a running worker may take *)
+Lemma stuck_running : forall c g (ls : locals lstate) w, INV4 c g ls -> stuck c (g, ls) -> w < nw c ->
+  st g w = rs_running -> own_work w g = false /\ run_work c w g = false.
+Proof.
+  intros c g ls w I S Hw Hr. destruct (i_roleW c g ls I w Hw) as (pc & L).
+  pose proof (stuck_worker c g ls w pc I S Hw L) as D. destruct (i_hs c g ls I w pc L Hw) as [A _]. rewrite Hr in A.
+  destruct pc; cbn in A; cbn [worker_enabled] in D; try discriminate;
+    apply orb_false_iff in D; destruct D as [D _]; apply orb_false_iff in D; destruct D as [D D2];
+    apply orb_false_iff in D; destruct D as [D _]; rewrite Hr in D2; cbn in D2; auto.
+Qed.
+
+Lemma has_normal_false : forall c l i tk, has_normal c l = false -> In (i, tk) l -> i < nw c -> False.
+Proof.
+  intros c l i tk H Hin Hi. assert (E : has_normal c l = true); [|congruence].
+  unfold has_normal. apply existsb_exists. exists (i, tk). split; [exact Hin|]. cbn. apply Nat.ltb_lt. exact Hi.
+Qed.
+
+Lemma nonempty_false : forall (A : Type) (l : list A), nonempty l = false -> l = [].
+Proof. intros A [|a l] H; [reflexivity|discriminate]. Qed.
+
+Lemma qof_empty_not_in : forall w l tk, nonempty (qof w l) = false -> In (w, tk) l -> False.
+Proof. intros w l tk H Hin. apply nonempty_false in H. apply in_qof in Hin. rewrite H in Hin. exact Hin. Qed.
+
+(* stuck, and every processing unit is running again (every suspend was followed by a resume): nothing is left in any queue
+   (normal or low-priority, staged or pending), every submitted task has been executed exactly once *)
 Lemma no_task_stranded : forall c progs sched, (forall t, Forall (api_ok c) (progs t)) ->
   let cf := sr_run c progs sched in
   nw c > 0 -> stuck c cf -> (forall w, w < nw c -> st (fst cf) w = rs_running) ->
-  qs (fst cf) = [] /\ heldl (fst cf) = [] /\ Permutation (map fst (executed (fst cf))) (submitted (fst cf)).
+  qs (fst cf) = [] /\ sq (fst cf) = [] /\ heldl (fst cf) = [] /\ Permutation (map fst (executed (fst cf))) (submitted (fst cf)).
 Proof.
-  intros c progs sched Hok cf Hn S R. subst cf.
-  destruct (no_task_stranded_queues c progs sched Hok S R) as [Hq Hh].
+  intros c progs sched Hok cf Hn S R. pose proof (sr_inv4 c progs sched Hok) as I.
   pose proof (sr_qi c progs sched Hn) as Q. pose proof (all_done_when_drained c progs sched) as AD. cbv zeta in AD.
-  remember (fst (sr_run c progs sched)) as g eqn:Hg.
-  assert (E : qs g = []).
+  fold cf in I, Q, AD. destruct cf as [g ls]. cbn [fst snd] in *.
+  assert (Hh : heldl g = []) by (eapply stuck_no_held; eassumption).
+  assert (None : forall i tk, In (i, tk) (qs g) \/ In (i, tk) (sq g) -> False).
+  { intros i tk Hin. pose proof (Q i tk Hin) as Hi. destruct (Nat.eq_dec i (nw c)) as [->|Ni].
+    - assert (Hl : nw c - 1 < nw c) by lia.
+      destruct (stuck_running c g ls (nw c - 1) I S Hl (R _ Hl)) as [_ RW]. unfold run_work in RW.
+      apply orb_false_iff in RW. destruct RW as [RW LS]. apply orb_false_iff in RW. destruct RW as [_ LP].
+      assert (LL : lastw c (nw c - 1) = true) by (unfold lastw; apply Nat.eqb_eq; lia). unfold low_s in LS. rewrite LL in LS. cbn [andb] in LS.
+      unfold low_p in LP. destruct Hin as [Hin|Hin]; [exact (qof_empty_not_in _ _ _ LP Hin)|exact (qof_empty_not_in _ _ _ LS Hin)].
+    - assert (Hl : i < nw c) by lia.
+      destruct (stuck_running c g ls i I S Hl (R _ Hl)) as [OW _]. unfold own_work in OW. apply orb_false_iff in OW. destruct OW as [O1 O2].
+      destruct Hin as [Hin|Hin]; [exact (qof_empty_not_in _ _ _ O1 Hin)|exact (qof_empty_not_in _ _ _ O2 Hin)]. }
+  assert (E1 : qs g = []) by (destruct (qs g) as [|[i tk] r]; [reflexivity|exfalso; apply (None i tk); left; left; reflexivity]).
+  assert (E2 : sq g = []) by (destruct (sq g) as [|[i tk] r]; [reflexivity|exfalso; apply (None i tk); right; left; reflexivity]).
+  repeat split; try assumption. apply AD; assumption.
+Qed.
+
+(* with stealing one running worker is enough for everything except the STAGED low-priority tasks, which only the last
+   worker converts: they remain (finding) unless w0 is the last worker *)
+Lemma no_task_stranded_stealing : forall c progs sched w0, (forall t, Forall (api_ok c) (progs t)) ->
+  let cf := sr_run c progs sched in
+  stealing c = true -> stuck c cf -> w0 < nw c -> st (fst cf) w0 = rs_running ->
+  qs (fst cf) = [] /\ heldl (fst cf) = [] /\
+  (forall i tk, In (i, tk) (sq (fst cf)) -> i = lowq c /\ lastw c w0 = false) /\
+  (qof (lowq c) (sq (fst cf)) = [] ->
+   sq (fst cf) = [] /\ Permutation (map fst (executed (fst cf))) (submitted (fst cf))).
+Proof.
+  intros c progs sched w0 Hok cf St S Hw Hr. pose proof (sr_inv4 c progs sched Hok) as I.
+  assert (Hn : nw c > 0) by lia.
+  pose proof (sr_qi c progs sched Hn) as Q. pose proof (all_done_when_drained c progs sched) as AD. cbv zeta in AD.
+  fold cf in I, Q, AD. destruct cf as [g ls]. cbn [fst snd] in *.
+  assert (Hh : heldl g = []) by (eapply stuck_no_held; eassumption).
+  destruct (stuck_running c g ls w0 I S Hw Hr) as [_ RW]. unfold run_work in RW.
+  apply orb_false_iff in RW. destruct RW as [RW LS]. apply orb_false_iff in RW. destruct RW as [RW LP].
+  apply orb_false_iff in RW. destruct RW as [SP SS]. unfold steal_p, steal_s in *. rewrite St in SP, SS. cbn in SP, SS.
+  assert (E1 : qs g = []).
   { destruct (qs g) as [|[i tk] r] eqn:Eq; [reflexivity|exfalso].
-    assert (Hi : i < nw c) by (apply (Q i tk); rewrite Eq; left; reflexivity).
-    specialize (Hq i Hi). unfold qof in Hq. cbn in Hq. rewrite Nat.eqb_refl in Hq. discriminate. }
-  split; [exact E|split; [exact Hh|]]. apply AD; assumption.
+    assert (Hin : In (i, tk) (qs g)) by (rewrite Eq; left; reflexivity). rewrite <- Eq in SP.
+    pose proof (Q i tk (or_introl Hin)) as Hi. destruct (Nat.eq_dec i (nw c)) as [->|Ni].
+    - unfold low_p in LP. eapply qof_empty_not_in; eassumption.
+    - eapply has_normal_false; [exact SP|exact Hin|lia]. }
+  assert (E3 : forall i tk, In (i, tk) (sq g) -> i = lowq c /\ lastw c w0 = false).
+  { intros i tk Hin. pose proof (Q i tk (or_intror Hin)) as Hi. destruct (Nat.eq_dec i (nw c)) as [->|Ni].
+    - split; [reflexivity|]. unfold low_s in LS. destruct (lastw c w0); [|reflexivity]. cbn in LS.
+      exfalso. eapply qof_empty_not_in; eassumption.
+    - exfalso. eapply has_normal_false; [exact SS|exact Hin|lia]. }
+  split; [exact E1|split; [exact Hh|split; [exact E3|]]].
+  intros El. assert (E2 : sq g = []).
+  { destruct (sq g) as [|[i tk] r] eqn:Eq; [reflexivity|exfalso].
+    assert (Hin : In (i, tk) (sq g)) by (rewrite Eq; left; reflexivity). rewrite <- Eq in El.
+    destruct (E3 i tk) as [-> _]; [rewrite <- Eq; exact Hin|]. apply in_qof in Hin. rewrite El in Hin. exact Hin. }
+  split; [exact E2|]. apply AD; assumption.
+Qed.
+
+(* ---- the low-priority finding: a concrete reachable stuck state ---- *)
+Lemma run_untouched : forall c (sched : list (nat * oracle)) (cf : gst * locals lstate) t,
+  ~ In t (map fst sched) -> snd (run (sr_tstep c) sched cf) t = snd cf t.
+Proof.
+  induction sched as [|[t0 o] s IH]; intros cf t H; [reflexivity|]. rewrite run_cons. rewrite IH.
+  - unfold step. cbn [fst snd]. destruct (sr_tstep c o t0 (fst cf) (snd cf t0)) as [g' l']. cbn [snd].
+    apply upd_other. intros ->. apply H. left. reflexivity.
+  - intros Hin. apply H. right. exact Hin.
+Qed.
+
+(* two workers, elasticity and stealing; client 2 stages two low-priority tasks and then suspends processing unit 1 (the last
+   one); worker 0 keeps running.  Mirrors notes/repro/c19_lowprio_suspend.cpp (variant with PU 0 left running). *)
+Definition lp_cfg := {| nw := 2; elastic := true; stealing := true |}.
+Definition lp_progs (t : nat) : list api :=
+  match t with 2 => [ASubmitLow None; ASubmitLow None; ASuspendPU 1 false] | _ => [] end.
+Definition lp_sched : list (nat * oracle) :=
+  repeat (2, (false, 0)) 12 ++ flat_map (fun _ => [(0, (false, 1)); (1, (false, 0)); (2, (false, 0))]) (seq 0 30).
+
+Lemma lp_stuck : stuck lp_cfg (sr_run lp_cfg lp_progs lp_sched).
+Proof.
+  intros t. destruct (Nat.ltb t 3) eqn:Lt.
+  - apply Nat.ltb_lt in Lt. do 3 (destruct t as [|t]; [vm_compute; reflexivity|]). lia.
+  - apply Nat.ltb_ge in Lt. unfold sr_run. rewrite run_untouched.
+    + cbn [snd]. unfold sr_locals. replace (Nat.ltb t (nw lp_cfg)) with false by (symmetry; apply Nat.ltb_ge; cbn; lia).
+      do 3 (destruct t as [|t]; [lia|]). cbn. reflexivity.
+    + intros Hin. assert (B : forall x, In x (map fst lp_sched) -> x < 3).
+      { intros x Hx. vm_compute in Hx. repeat (destruct Hx as [<-|Hx]; [lia|]). destruct Hx. }
+      apply B in Hin. lia.
+Qed.
+
+Lemma lowprio_suspend_stuck_refuted :
+  exists c progs sched, (forall t, Forall (api_ok c) (progs t)) /\
+    let cf := sr_run c progs sched in
+    stuck c cf /\
+    (* the suspend call has not returned: its caller spins on the state of the last worker, which stays pre_sleep *)
+    (exists t w, lastw c w = true /\ at_wait_sleep w (snd cf t) = true /\ client_done (snd cf t) = false /\
+                 st (fst cf) w = rs_pre_sleep /\ calls (fst cf) = []) /\
+    (* another worker is running, stealing is enabled *)
+    (exists w0, w0 < nw c /\ st (fst cf) w0 = rs_running /\ stealing c = true) /\
+    (* and yet a staged low-priority task has not run (and, the state being stuck, never will) *)
+    (exists tk, In (lowq c, tk) (sq (fst cf)) /\ In tk (submitted (fst cf)) /\ ~ In tk (map fst (executed (fst cf)))) /\
+    (* so the unguarded "one running worker suffices" / "the calls return" statements fail *)
+    ~ (forall t, client_done (snd cf t) = true \/ (at_wait_idle (snd cf t) = true /\ live (fst cf) > 0)) /\
+    sq (fst cf) <> [].
+Proof.
+  exists lp_cfg, lp_progs, lp_sched. split.
+  - intros t. do 3 (destruct t as [|t]; [cbn; repeat constructor|]). constructor.
+  - cbv zeta. split; [exact lp_stuck|]. split; [|split; [|split; [|split]]].
+    + exists 2, 1. vm_compute. repeat split; reflexivity.
+    + exists 0. vm_compute. repeat split; auto.
+    + exists (2, 0). vm_compute. split; [left; reflexivity|split; [right; left; reflexivity|intros []]].
+    + intros H. specialize (H 2). vm_compute in H. destruct H as [H|[H _]]; discriminate.
+    + vm_compute. discriminate.
 Qed.
